@@ -6,7 +6,7 @@ pid = sys.argv[1]
 rows = {}
 for log in sys.argv[2:]:
     for l in open(log):
-        m = re.match(r"MUTANT (\S+) rc=(\S+)(?: class=(\S+))?(?: runs=(\d+))?(?: wall=(\d+)s)?", l)
+        m = re.match(r"MUTANT (\S+) rc=(\S+)(?: class=(\S+))?\s*(?:runs=(\d+))?\s*(?:wall=(\d+)s)?", l)
         if m:
             rows[m.group(1)] = m.groups()[1:]
 DESCR = {}
